@@ -348,20 +348,62 @@ func (t *TokenWatcher) AddWaitForConfirmationTx(swapID, txID string, vout, start
 	if t.p.point("watcher.AddWaitForConfirmationTx", "enter", t.chain) {
 		return
 	}
-	w := t.p.N.W
+	n := t.p.N
+	w := n.W
 	w.mu.Lock()
-	defer w.mu.Unlock()
-	t.p.N.ConfWaits[t.chain] = append(t.p.N.ConfWaits[t.chain], &ConfWait{Epoch: t.p.Epoch, SwapId: swapID, TxID: txID, Vout: vout, StartHeight: startingHeight, Window: paymentWindow})
+	cw := &ConfWait{Epoch: t.p.Epoch, SwapId: swapID, TxID: txID, Vout: vout, StartHeight: startingHeight, Window: paymentWindow}
+	n.ConfWaits[t.chain] = append(n.ConfWaits[t.chain], cw)
+	var fire func()
+	if n.Eager {
+		c := w.Chains[t.chain]
+		ccb := n.confCb[t.chain]
+		tx := c.Txs[txID]
+		switch {
+		case ccb == nil:
+		case uint64(c.Height) >= uint64(startingHeight)+uint64(paymentWindow):
+			cw.Done = true
+			fire = func() { _ = ccb(swapID, "", fmt.Errorf("exceeded csv limit")) }
+		case tx != nil && c.Confs(txID) >= RequiredConfs(t.chain):
+			cw.Done = true
+			hex := tx.Hex
+			fire = func() { _ = ccb(swapID, hex, nil) }
+		}
+	}
+	w.mu.Unlock()
+	if fire != nil {
+		t.p.eagerly(fire)
+	}
 }
 
 func (t *TokenWatcher) AddWaitForCsvTx(swapID, txID string, vout, startingHeight, csv uint32, scriptpubkey []byte) {
 	if t.p.point("watcher.AddWaitForCsvTx", "enter", t.chain) {
 		return
 	}
-	w := t.p.N.W
+	n := t.p.N
+	w := n.W
 	w.mu.Lock()
-	defer w.mu.Unlock()
-	t.p.N.CsvWaits[t.chain] = append(t.p.N.CsvWaits[t.chain], &CsvWait{Epoch: t.p.Epoch, SwapId: swapID, TxID: txID, Vout: vout, Csv: csv})
+	cs := &CsvWait{Epoch: t.p.Epoch, SwapId: swapID, TxID: txID, Vout: vout, Csv: csv}
+	n.CsvWaits[t.chain] = append(n.CsvWaits[t.chain], cs)
+	var fire func()
+	if n.Eager {
+		c := w.Chains[t.chain]
+		vcb := n.csvCb[t.chain]
+		tx := c.Txs[txID]
+		if vcb != nil && tx != nil && int(vout) < len(tx.Outs) && tx.Outs[vout].SpentBy == "" && c.Confs(txID) >= csv {
+			fire = func() {
+				// like the polled delivery: the watch is dropped once the callback accepted the report
+				if err := vcb(swapID); err == nil && !t.p.Dead() {
+					w.mu.Lock()
+					cs.Done = true
+					w.mu.Unlock()
+				}
+			}
+		}
+	}
+	w.mu.Unlock()
+	if fire != nil {
+		t.p.eagerly(fire)
+	}
 }
 
 func (t *TokenWatcher) AddConfirmationCallback(f func(swapId string, txHex string, err error) error) {
